@@ -29,7 +29,8 @@ ValidRate(r) == r >= 1 /\ r <= 96000
 \* ---------------------------------------------------------------- stream-level entry point
 \* c = [ch, bps, rate, bs, excess (a sample just outside the width), where (WHICH sample that is: 0 = none,
 \*      1 first, 2 second interleaved value, 3 middle, 4 the very last value (last channel of the final short
-\*      block), 5 last channel one step earlier, 6 first channel of the last step; odd = just above the maximum,
+\*      block), 5 last channel one step earlier, 6 first channel of the last step, 7 one such sample in EVERY block
+\*      of a longer input (more invalid blocks than worker threads); odd = just above the maximum,
 \*      even = just below the minimum - the verdict does not depend on it), bdel (bytes per sample used by a
 \*      byte-delivering source, 0 = integer delivery)]
 \* (a sample outside the width cannot be expressed in packed bytes of exactly that width: with byte
